@@ -12,6 +12,9 @@ package main
 
 import (
 	"fmt"
+	"io"
+	"log"
+	"net/http"
 	"runtime"
 	"slices"
 	"strconv"
@@ -21,6 +24,33 @@ import (
 
 	"github.com/tigerwill90/fox"
 )
+
+// cpDiagA / cpDiagB send the header twice: the second call is reported by the recorder with the function it came from
+var cpCountA, cpCountB atomic.Int64
+
+func cpDiagA(c fox.Context) {
+	c.Writer().WriteHeader(http.StatusNoContent)
+	c.Writer().WriteHeader(http.StatusNoContent)
+	cpCountA.Add(1)
+}
+
+func cpDiagB(c fox.Context) {
+	c.Writer().WriteHeader(http.StatusNoContent)
+	c.Writer().WriteHeader(http.StatusNoContent)
+	cpCountB.Add(1)
+}
+
+type cpLog struct {
+	mu sync.Mutex
+	b  []byte
+}
+
+func (l *cpLog) Write(p []byte) (int, error) {
+	l.mu.Lock()
+	l.b = append(l.b, p...)
+	l.mu.Unlock()
+	return len(p), nil
+}
 
 func init() {
 	register(&stream{name: "concparams", gen: genConcParams, run: runConcParams})
@@ -52,6 +82,11 @@ func runConcParams(fields []string) string {
 		}
 	}
 	f, _ := fox.New(fox.WithIgnoreTrailingSlash(true), fox.WithMiddleware(wrap))
+	diag := &cpLog{}
+	log.SetOutput(diag) // the superfluous-WriteHeader reports name their caller
+	defer log.SetOutput(io.Discard)
+	cpCountA.Store(0)
+	cpCountB.Store(0)
 	var bad atomic.Int64
 	var first atomic.Value
 	report := func(s string) {
@@ -71,6 +106,13 @@ func runConcParams(fields []string) string {
 			runtime.Gosched()
 			if got2 := c.Pattern() + "|" + showParams(slices.Collect(c.Params())); got2 != want {
 				report("handler saw " + got2 + " (second look) want " + want)
+			}
+			// a diagnostic path of the response writer (a superfluous WriteHeader is reported through the log package
+			// with the caller's position): many requests take it at the same time, from two different functions
+			if len(want)%2 == 0 {
+				cpDiagA(c)
+			} else {
+				cpDiagB(c)
 			}
 		}
 	}
@@ -198,6 +240,17 @@ func runConcParams(fields []string) string {
 	res := "I=ok\tN=1\tT=goroutines-" + a[0]
 	if bad.Load() > 0 {
 		res += fmt.Sprintf("\tO=%d requests saw foreign or wrong parameters; first: %v", bad.Load(), first.Load())
+	} else {
+		// every superfluous WriteHeader was reported once, with the function it came from
+		diag.mu.Lock()
+		text := string(diag.b)
+		diag.mu.Unlock()
+		na := strings.Count(text, "superfluous response.WriteHeader call from main.cpDiagA ")
+		nb := strings.Count(text, "superfluous response.WriteHeader call from main.cpDiagB ")
+		if int64(na) != cpCountA.Load() || int64(nb) != cpCountB.Load() {
+			res += fmt.Sprintf("\tO=the diagnostics of concurrent requests are mixed up: %d / %d superfluous WriteHeader calls were made from cpDiagA / cpDiagB, the log attributes %d / %d to them",
+				cpCountA.Load(), cpCountB.Load(), na, nb)
+		}
 	}
 	return res
 }
